@@ -3,6 +3,8 @@ import StepupModel.Lemmas.StableInst
 import StepupModel.Lemmas.Ownership
 import StepupModel.Lemmas.OwnershipProducts
 import StepupModel.Lemmas.OwnershipWitness
+import StepupModel.Lemmas.OwnershipEdge
+import StepupModel.Lemmas.OwnershipEdgeWitness
 /-!
 # C08  Every path has one owner and conflicts are rejected in either order
 
@@ -227,5 +229,16 @@ theorem products_are_owned_by_their_only_producer_partial (h : List (KConfig × 
     ProductByStep (KState.init.run h) ∧ ProducersAreCreator (KState.init.run h) ∧ DepsUnique (KState.init.run h) :=
   ⟨productByStep_after_every_history h ha, producersAreCreator_after_every_history h hg,
     depsUnique_after_every_history h⟩
+
+open StepupModel.K.Own StepupModel.K.OwnE in
+/-- **Every attached product is created by a step, which is its one and only producer** (the clause
+`producers == [creator]` of the oracle), after every history in which `amend` names steps, the requests
+satisfy the side conditions of the I4 development (which the "no second producer" part is read off) and
+`reset_for_rerun` is never asked of a file key (a request that only the model can express:
+`Step.reset_for_rerun` does not exist on files; kernel-checked counterexample
+`reset_for_rerun_of_file_breaks_O5`, refused by the guard). -/
+theorem products_owned_after_every_history (h : List (KConfig × Req)) (ha : Ever.AmendsSteps h)
+    (hs : SuccOut.HistOKS KState.init h) (hn : ResetsNoFile h) : ProductsOwned (KState.init.run h) :=
+  productsOwned_after_every_history' h ha hs hn
 
 end StepupModel.Props.C08
